@@ -60,6 +60,18 @@ class C11(Prop):
             c = self.mk(fam, rule, base, pv, pa, k=rng.randint(1, m + 1))
             if fam == "orbit": c["tied"] = [a, b]
             yield c
+        # many alternatives, ballots that differ only in two alternatives (at either end of the numbering), few voters: anything that
+        # identifies or hashes ballots by a fixed-width key collides here
+        for i in range(16 if tier == "quick" else 300):
+            m = [31, 35, 20, 63, 39, 16, 47, 24][i % 8]
+            A = rng.sample(range(1, m + 1), m)
+            a, b = (m - 2, m - 1) if i % 2 == 0 else (0, 1)
+            B = list(A); B[a], B[b] = B[b], B[a]
+            P = [A, B, B] if i % 3 else [B, A, B, A, B]
+            pv = list(range(len(P))); pv.reverse(); pa = list(range(m)); pa.reverse()
+            c = self.mk("wide_pairs", ["Copeland", "Borda", "Copeland", "Harmonic"][i % 4], P, pv, pa, k=1)
+            c["dtype"] = ["int64", "float", "int32"][i % 3]
+            yield c
         N = 150 if tier == "quick" else 2000
         for i in range(N):
             n = rng.randint(1, 10); m = rng.randint(2, 7)
